@@ -7,6 +7,7 @@ import (
 	"hash/fnv"
 	"math/rand"
 	"net/http"
+	"sort"
 	"strconv"
 	"strings"
 	"sync"
@@ -67,7 +68,10 @@ type c19Rec struct {
 
 func faultFor(salt uint32, pct int, c *Call) string {
 	h := fnv.New32a()
-	fmt.Fprintf(h, "%d|%s|%s|%v", salt, c.Service, c.Query, c.Vars["id"])
+	// the planner prints a step's variable definitions in Go-map order: hash the query as a multiset of bytes
+	qb := []byte(c.Query)
+	sort.Slice(qb, func(i, j int) bool { return qb[i] < qb[j] })
+	fmt.Fprintf(h, "%d|%s|%s|%v", salt, c.Service, qb, c.Vars["id"])
 	v := int(h.Sum32() % 1000)
 	if v >= pct*10 {
 		return FaultNone
